@@ -1,14 +1,14 @@
 SPECIFICATION Spec
 CONSTANTS
   Msgs = {1, 2, 3}
-  NQ = 1
+  NQ = 3
   TL = 2
-  ML = 2
-  MaxRetries = 1
-  Late = TRUE
+  ML = 1
+  MaxRetries = 0
+  Late = FALSE
   Repaired = TRUE
   BudgetCheck = "after_slot"
-  Prefetch = 2
+  Prefetch = 0
   FinishMode = "taken"
 INVARIANT Conservation
 INVARIANT SlotsSound
@@ -16,4 +16,5 @@ INVARIANT RunningBound
 INVARIANT StartedBound
 INVARIANT AtReturn
 INVARIANT TriedBound
+INVARIANT OwnQueue
 CONSTRAINT Bounded
